@@ -66,13 +66,15 @@ pub mod spec {
                 .map(|point| LookupTable::<CachedPoint>::from(point.borrow()))
                 .collect();
 
-            let scalar_digits_vec: Vec<_> = scalars
-                .into_iter()
-                .map(|s| s.borrow().as_radix_16())
-                .collect();
-            // Pass ownership to a `Zeroizing` wrapper
+            // The digits are collected into a Vec owned by a `Zeroizing` wrapper
+            // from the start, so that they are also wiped if the caller's scalar
+            // iterator panics part-way.
+            let scalars = scalars.into_iter();
             #[cfg(feature = "zeroize")]
-            let scalar_digits_vec = Zeroizing::new(scalar_digits_vec);
+            let mut scalar_digits_vec = Zeroizing::new(Vec::with_capacity(scalars.size_hint().0));
+            #[cfg(not(feature = "zeroize"))]
+            let mut scalar_digits_vec = Vec::with_capacity(scalars.size_hint().0);
+            scalar_digits_vec.extend(scalars.map(|s| s.borrow().as_radix_16()));
 
             let mut Q = ExtendedPoint::identity();
             for j in (0..64).rev() {
